@@ -41,13 +41,13 @@ var tiers = map[string]map[string]tierCfg{
 	"C13": {"quick": {200000, 25, 20, 6, 1500}, "thorough": {6000000, 900, 30, 240, 4000}},
 	"C12": {"quick": {150000, 25, 20, 0, 1500}, "thorough": {4000000, 900, 30, 0, 4000}},
 	"C02": {"quick": {60000, 30, 20, 0, 600}, "thorough": {1500000, 1200, 30, 0, 1500}},
-	"C16": {"quick": {24000, 30, 20, 0, 600}, "thorough": {600000, 1200, 30, 0, 1500}},
+	"C16": {"quick": {24000, 30, 20, 8, 600}, "thorough": {600000, 1200, 30, 300, 1500}},
 	"C14": {"quick": {20000, 25, 20, 6, 600}, "thorough": {800000, 900, 30, 240, 1500}},
 	"C09": {"quick": {200000, 25, 20, 0, 1000}, "thorough": {3000000, 900, 30, 0, 3000}},
 	"C01": {"quick": {80000, 25, 20, 0, 1000}, "thorough": {2000000, 900, 30, 0, 3000}},
 }
 
-var raceProps = map[string]bool{"C13": true, "C14": true}
+var raceProps = map[string]bool{"C13": true, "C14": true, "C16": true}
 
 type aggT struct {
 	Evals     int64            `json:"evals"`
@@ -288,7 +288,7 @@ func main() {
 	}
 	if raceViol != nil {
 		path := filepath.Join(verifDir, "replays", fmt.Sprintf("%s-race-%d.json", prop, seed))
-		b, _ := json.MarshalIndent(map[string]any{"property": prop, "race_leg": true, "seed": seed, "report": raceViol.res.Detail}, "", " ")
+		b, _ := json.MarshalIndent(map[string]any{"property": prop, "race_leg": true, "seed": seed, "report": raceViol.res.Detail, "case": raceViol.c}, "", " ")
 		os.WriteFile(path, b, 0o644)
 		if kf := matchKnown(known, prop, raceViol.res); kf != "" {
 			fmt.Printf("KNOWN-FINDING: property=%s %s\n", prop, kf)
@@ -727,7 +727,14 @@ func doReplay(prop, bin, path string, known *knownFile, dumpLog bool) int {
 	json.Unmarshal(b, &probe)
 	if probe.RaceLeg {
 		info := map[string]any{}
-		v := raceLeg(prop, "quick", 1, 20, info)
+		fixed := ""
+		var pc struct {
+			Case *harness.Case `json:"case"`
+		}
+		if json.Unmarshal(b, &pc) == nil && pc.Case != nil {
+			fixed = path
+		}
+		v := raceLeg(prop, "quick", 1, 20, info, fixed)
 		if v != nil {
 			fmt.Printf("VIOLATION property=%s replay=%s\n  %s\n", prop, path, indent(v.res.Detail))
 			cleanup()
@@ -768,7 +775,7 @@ func doReplay(prop, bin, path string, known *knownFile, dumpLog bool) int {
 // raceLeg builds ./racer with -race and WITHOUT the overlay (real mutexes, real
 // goroutines) and runs the property's workloads for a few seconds. It reports
 // only what the Go race detector prints. Probabilistic; auxiliary.
-func raceLeg(prop, tier string, seed int64, secs int, info map[string]any) *violation {
+func raceLeg(prop, tier string, seed int64, secs int, info map[string]any, fixedCase ...string) *violation {
 	bin := filepath.Join(scratch, "racer.test")
 	if out, err := runCmd(verifDir, goEnv(), goBin, "test", "-race", "-c", "-o", bin, "./racer"); err != nil {
 		die2("building the race leg failed: %v\n%s", err, out)
@@ -778,6 +785,9 @@ func raceLeg(prop, tier string, seed int64, secs int, info map[string]any) *viol
 	cmd.Dir = scratch
 	cmd.Env = append(goEnv(), "GORACE=halt_on_error=1 exitcode=66", fmt.Sprintf("VERIF_SEED=%d", seed), fmt.Sprintf("VERIF_RACE_SECONDS=%d", secs),
 		"VERIF_RACE_OUT="+filepath.Join(scratch, "race.json"))
+	if len(fixedCase) > 0 && fixedCase[0] != "" {
+		cmd.Env = append(cmd.Env, "VERIF_REAL_CASE="+fixedCase[0])
+	}
 	out, err := cmd.CombinedOutput()
 	info["race_leg_wall_s"] = time.Since(t0).Seconds()
 	if b, e := os.ReadFile(filepath.Join(scratch, "race.json")); e == nil {
@@ -799,6 +809,27 @@ func raceLeg(prop, tier string, seed int64, secs int, info map[string]any) *viol
 				sig = "race:" + filepath.Base(m[1])
 			}
 			return &violation{seed: seed, res: &harness.Result{Violation: "data-race", Signature: sig, Detail: "Go race detector (real goroutines, unmodified source):\n" + s}}
+		}
+		if i := strings.Index(s, "REAL-LEG VIOLATION"); i >= 0 {
+			d := s[i:]
+			if len(d) > 6000 {
+				d = d[:6000]
+			}
+			class := "real-leg"
+			if m := regexp.MustCompile(`class=(\S+)`).FindStringSubmatch(d); m != nil {
+				class = m[1]
+			}
+			v := &violation{seed: seed, res: &harness.Result{Violation: class, Signature: "real-leg:" + class,
+				Detail: "real goroutines (no scheduler, unmodified source), same oracle as the simulation; this does not replay exactly:\n" + d}}
+			if b, e := os.ReadFile(filepath.Join(scratch, "race.json.case")); e == nil {
+				var wrap struct {
+					Case *harness.Case `json:"case"`
+				}
+				if json.Unmarshal(b, &wrap) == nil {
+					v.c = wrap.Case
+				}
+			}
+			return v
 		}
 		die2("race leg failed without a race report: %v\n%s", err, s)
 	}
